@@ -432,8 +432,24 @@ func (f *Frame) headerPhis(b *ssa.BasicBlock) []*ssa.Phi {
 	return out
 }
 
+// autoInv is an invariant the generator derives itself. Text is translated (it
+// names SSA registers, which are unambiguous); Label names the obligation and is
+// written with source-level names only, so that it does not depend on register
+// numbering (an engine or code change that renumbers registers must not rename
+// a registered obligation).
+type autoInv struct{ Text, Label string }
+
+// srcName renders a value with source-level names for obligation labels.
+func srcName(v ssa.Value) string {
+	s := shortVal(v)
+	if s == "_" || s == "" {
+		return "?"
+	}
+	return s
+}
+
 // autoInvariants returns invariants the generator derives itself for counting loops.
-func (f *Frame) autoInvariants(l *Loop, phi *ssa.Phi, init ssa.Value) []string {
+func (f *Frame) autoInvariants(l *Loop, phi *ssa.Phi, init ssa.Value) []autoInv {
 	if !isWordType(phi.Type()) {
 		return nil
 	}
@@ -455,8 +471,8 @@ func (f *Frame) autoInvariants(l *Loop, phi *ssa.Phi, init ssa.Value) []string {
 			return nil
 		}
 	}
-	name := phi.Name()
-	out := []string{fmt.Sprintf("%d <= %s", c.Int64(), name)}
+	name, lname := phi.Name(), srcName(phi)
+	out := []autoInv{{fmt.Sprintf("%d <= %s", c.Int64(), name), fmt.Sprintf("%d<=%s", c.Int64(), lname)}}
 	// upper bound from the loop condition in the header: phi < X or phi+1 < X with X loop-invariant
 	if len(l.Header.Instrs) == 0 {
 		return out
@@ -478,35 +494,41 @@ func (f *Frame) autoInvariants(l *Loop, phi *ssa.Phi, init ssa.Value) []string {
 		}
 		return false
 	}
-	var bound string
+	var bound, lbound string
 	switch y := cond.Y.(type) {
 	case *ssa.Const:
 		if y.Value != nil {
 			bound = fmt.Sprint(y.Int64())
+			lbound = bound
 		}
 	case *ssa.Call:
 		if b, isB := y.Call.Value.(*ssa.Builtin); isB && b.Name() == "len" && outside(y.Call.Args[0]) {
 			if _, isMap := y.Call.Args[0].Type().Underlying().(*types.Map); !isMap {
 				if _, isC := y.Call.Args[0].(*ssa.Const); !isC {
 					bound = "len(" + y.Call.Args[0].Name() + ")"
+					lbound = "len(" + srcName(y.Call.Args[0]) + ")"
 				}
 			}
 		} else if outside(y) {
 			bound = y.Name()
+			lbound = srcName(y)
 		}
 	default:
 		if outside(cond.Y) {
 			bound = cond.Y.Name()
+			lbound = srcName(cond.Y)
 		}
 	}
 	if bound == "" {
 		return out
 	}
 	if cond.X == phi {
-		out = append(out, fmt.Sprintf("%s <= %s || %s == %d", name, bound, name, c.Int64()))
+		out = append(out, autoInv{fmt.Sprintf("%s <= %s || %s == %d", name, bound, name, c.Int64()),
+			fmt.Sprintf("%s<=%s||%s==%d", lname, lbound, lname, c.Int64())})
 	} else if bo, isBo := cond.X.(*ssa.BinOp); isBo && bo.X == phi && bo.Op.String() == "+" {
 		if k, isK := bo.Y.(*ssa.Const); isK && k.Value != nil && k.Int64() == 1 {
-			out = append(out, fmt.Sprintf("%s < %s || %s == %d", name, bound, name, c.Int64()))
+			out = append(out, autoInv{fmt.Sprintf("%s < %s || %s == %d", name, bound, name, c.Int64()),
+				fmt.Sprintf("%s<%s||%s==%d", lname, lbound, lname, c.Int64())})
 		}
 	}
 	return out
@@ -518,7 +540,7 @@ func (f *Frame) enterLoop(l *Loop, b *ssa.BasicBlock, predBlocks []*ssa.BasicBlo
 	phis := f.headerPhis(b)
 	// values of the phis on loop entry
 	initVals := map[*ssa.Phi]Term{}
-	var auto []string
+	var auto []autoInv
 	for _, phi := range phis {
 		v := f.mergePhi(phi, b, predBlocks, conds)
 		initVals[phi] = v.(Term)
@@ -526,8 +548,14 @@ func (f *Frame) enterLoop(l *Loop, b *ssa.BasicBlock, predBlocks []*ssa.BasicBlo
 			auto = append(auto, f.autoInvariants(l, phi, f.phiOperand(phi, b, predBlocks[0]))...)
 		}
 	}
+	seenLabel := map[string]int{}
 	for _, a := range auto {
-		invs = append(invs, &Clause{Kind: "invariant", Text: a, Loop: l.Ordinal, Label: "auto:" + strings.ReplaceAll(a, " ", "")})
+		label := "auto:" + strings.ReplaceAll(a.Label, " ", "")
+		seenLabel[label]++
+		if n := seenLabel[label]; n > 1 {
+			label += fmt.Sprintf("~%d", n)
+		}
+		invs = append(invs, &Clause{Kind: "invariant", Text: a.Text, Loop: l.Ordinal, Label: label})
 	}
 	l.invs = invs
 	// inv-init
